@@ -1155,7 +1155,15 @@ class Interp:
                 if (fv.cls, fv.name) in cx.inline:
                     return self.inline_call(fv.node, fv.cls, [fv.self_ref] + list(args), kwargs, st, k, {})
                 if c is not None and not cx.is_target(fv.cls, fv.name):
-                    return c.summary(self, fv.self_ref, args, kwargs, st, k)
+                    try:
+                        return c.summary(self, fv.self_ref, args, kwargs, st, k)
+                    except Unsupported as e:
+                        # a sibling method that is under contract as a unit of its own but offers no call-site summary is
+                        # executed from its real AST instead (still the real code, just not modular)
+                        if "no call-site summary" not in str(e) or fv.node is None:
+                            raise
+                        cx.notes.append("inlined %s.%s at a call site (its contract has no summary)" % (fv.cls, fv.name))
+                        return self.inline_call(fv.node, fv.cls, [fv.self_ref] + list(args), kwargs, st, k, {})
                 raise Unsupported("call of %s.%s: no contract and not inlinable" % (fv.cls, fv.name))
             if fv.kind == "lambda":
                 return self.inline_call(fv.node, fv.cls, list(args), kwargs, st, k, fv.env)
